@@ -276,7 +276,12 @@ def drive_pytree(params: Params) -> Params:
   new_leaves = []
   for leaf in leaves:
     # this uses the unbiased scale from section 4.2 in DRIVE's paper (Scale = norm2(R(x))**2 / norm1(R(x)) )
-    new_leaves.append(jnp.sum(jnp.power(leaf, 2)) * jnp.sign(leaf) / jnp.sum(jnp.abs(leaf)))
+    norm1 = jnp.sum(jnp.abs(leaf))
+    # An all-zero leaf has norm1 == 0 (and a zero numerator): its encoding is the
+    # zero leaf, not 0 / 0.
+    new_leaves.append(
+        jnp.sum(jnp.power(leaf, 2)) * jnp.sign(leaf) /
+        jnp.where(norm1 > 0, norm1, 1.))
   return jax.tree_util.tree_unflatten(tree_def, new_leaves)
 
 
